@@ -258,8 +258,9 @@ class FunctionType:
     msvc_convention: typing.Optional[str] = None
 
     def format(self) -> str:
-        vararg = "..." if self.vararg else ""
         params = ", ".join(p.format() for p in self.parameters)
+        # "int..." would read back as a parameter pack
+        vararg = ("..." if not params else ", ...") if self.vararg else ""
         if self.has_trailing_return:
             return f"auto ({params}{vararg}) -> {self.return_type.format()}"
         else:
@@ -268,8 +269,9 @@ class FunctionType:
 
     def format_decl(self, name: str) -> str:
         """Format as a named declaration"""
-        vararg = "..." if self.vararg else ""
         params = ", ".join(p.format() for p in self.parameters)
+        # "int..." would read back as a parameter pack
+        vararg = ("..." if not params else ", ...") if self.vararg else ""
         if self.has_trailing_return:
             return f"auto {name}({params}{vararg}) -> {self.return_type.format()}"
         else:
